@@ -260,6 +260,29 @@ def harness_build(bins, log, features=None):
 
 # ---------------------------------------------------------------------------------------------
 # step 5: run
+def harness_env():
+    env = dict(os.environ)
+    env["WACV_REPO"] = REPO
+    env["WACV_VERIF"] = VERIF
+    env["WACV_TARGET"] = target_dir()
+    env["CARGO_NET_OFFLINE"] = "true"
+    return env
+
+
+def prebuild(cfg, log):
+    """`"prebuild": true` in the config: the harness binary builds whatever helper crates or
+    binaries it needs (e.g. the `wac` CLI, a local registry server) when called with --prebuild,
+    once, before the shards start (and during --setup)."""
+    if not cfg.get("prebuild"):
+        return True
+    hb = os.path.join(target_dir(), "debug", cfg["harness_bin"])
+    with Lock("cargo"):
+        p = subprocess.run([hb, "--prebuild", "1"], stdout=subprocess.PIPE, stderr=subprocess.STDOUT, text=True,
+                           env=harness_env(), timeout=7200)
+    log.append(p.stdout[-3000:])
+    return p.returncode == 0
+
+
 def run_shard(cfg, pid, tier, seed, shard, nshards, replay=None, extra_args=None):
     d = run_dir(pid)
     cases = os.path.join(d, "cases.%s.%d" % (tier, shard))
@@ -271,10 +294,7 @@ def run_shard(cfg, pid, tier, seed, shard, nshards, replay=None, extra_args=None
         cmd += extra_args
     if replay:
         cmd += ["--replay", replay]
-    env = dict(os.environ)
-    env["WACV_REPO"] = REPO
-    env["WACV_VERIF"] = VERIF
-    env["WACV_TARGET"] = target_dir()
+    env = harness_env()
     t0 = time.time()
     p = subprocess.run(cmd, stdout=subprocess.PIPE, stderr=subprocess.PIPE, text=True, env=env,
                        timeout=cfg.get("tiers", {}).get(tier, {}).get("timeout_s", 3600))
@@ -460,6 +480,8 @@ def check(pid, tier, seed, replay=None):
             infra.append("harness build failed (does the repository compile?):\n" + cargo_out[-3000:])
         elif not driver_ok:
             infra.append("driver not built")
+        elif not prebuild(cfg, log):
+            infra.append("harness --prebuild failed:\n" + (log[-1] if log else ""))
         else:
             tcfg = cfg.get("tiers", {}).get(tier, {})
             nshards = int(tcfg.get("shards", 1))
@@ -628,6 +650,15 @@ def setup():
     log = []
     ok, s, out = harness_build(sorted(set(bins)), log)
     print(out[-3000:])
+    if ok:
+        for name in sorted(os.listdir(os.path.join(VERIF, "checks"))):
+            if re.match(r"C\d+\.json$", name):
+                cfg = load_cfg(name[:-5])
+                if cfg.get("prebuild") and cfg.get("harness_bin"):
+                    plog = []
+                    if not prebuild(cfg, plog):
+                        print("prebuild failed for", name, plog[-1] if plog else "")
+                        ok = False
     print("setup done in %.0fs" % (time.time() - t0))
     return 0 if ok else 1
 
